@@ -352,7 +352,8 @@ func (s *Server) HandleReadWriter(
 func (s *Server) HandleReader(ctx context.Context, reader io.Reader) ([]byte, http.Header, error) {
 	var errorRecoverBuffer windowBuffer
 	bufferedReader := bufio.NewReaderSize(io.TeeReader(reader, &errorRecoverBuffer), bufferSize)
-	requestIsBatch := isBatch(bufferedReader)
+	requestIsBatch, skipped := isBatch(bufferedReader)
+	errorRecoverBuffer.skippedBytes = skipped
 
 	var resp *response
 	var header http.Header
@@ -472,17 +473,23 @@ func (s *Server) handleBatchRequest(ctx context.Context, batchReq []json.RawMess
 	return result, finalHeaders, err // todo: fix batch request aggregate header
 }
 
-func isBatch(reader *bufio.Reader) bool {
-	for n := 1; ; n++ {
-		buf, err := reader.Peek(n)
+// isBatch reports whether the first significant byte of the request is '['. The
+// insignificant whitespace before it is consumed (a run of it longer than the reader's
+// buffer cannot be peeked at); skipped is the number of bytes consumed.
+func isBatch(reader *bufio.Reader) (batch bool, skipped int) {
+	for {
+		buf, err := reader.Peek(1)
 		if err != nil {
-			return false
+			return false, skipped
 		}
-		switch buf[n-1] {
+		switch buf[0] {
 		case ' ', '\t', '\r', '\n':
-			continue
+			if _, err := reader.Discard(1); err != nil {
+				return false, skipped
+			}
+			skipped++
 		default:
-			return buf[n-1] == '['
+			return buf[0] == '[', skipped
 		}
 	}
 }
